@@ -25,11 +25,19 @@ SCORE_PROPS = ('C01', 'C09', 'C10')
 _strict = [True]
 
 
+def _inexact(x):
+    v = x * 8.0
+    return v != v or abs(v) > 2 ** 28 or abs(v - round(v)) > 1e-6
+
+
 def _exact8(x, what):
     v = x * 8.0
+    if v != v or abs(v) > 2 ** 28:
+        # inputs are bounded (|k| <= 2^15 per entry): no sum of them is this large - garbage was read somewhere
+        if _strict[0]:
+            raise NonDyadic('%s %r is not a sum of the given scores (out of their range)' % (what, x))
+        return 2 ** 28 if v > 0 else -2 ** 28
     r = int(round(v))
-    if abs(r) > 2 ** 28:
-        raise Machinery('score %r (%s) out of the representable range' % (x, what))
     if abs(v - r) > 1e-6:
         if _strict[0]:
             raise NonDyadic('%s %r is not a sum of the given scores (all multiples of 1/8)' % (what, x))
@@ -225,7 +233,7 @@ def run_instance(h, g, n, tag8, dep8, cfg, eid):
         # well-formed input: the search neither returned trees nor the failure placeholder
         raise ParserRaised(repr(e)[:300])
     prios = [_exact8(p['in'] + p['out'], 'priority') for p in pops[:4000]]
-    if not _strict[0] and any(abs((p['in'] + p['out']) * 8.0 - round((p['in'] + p['out']) * 8.0)) > 1e-6 for p in pops[:4000]):
+    if not _strict[0] and any(_inexact(p['in'] + p['out']) for p in pops[:4000]):
         prios = []
     failed = len(res) >= 1 and res[0].score == -float('inf')
     ph = {'n': len(res), 'neginf': False, 'leaf': False}
